@@ -290,10 +290,12 @@ def _real_element():
         m = mesh("triangle")
         P1 = basix.ufl.element("P", "triangle", 1)
         R = basix.ufl.real_element("triangle", ())
-        W = FunctionSpace(m, basix.ufl.mixed_element([P1, R]))
-        (u, r) = ufl.TrialFunctions(W)
-        (v, s) = ufl.TestFunctions(W)
-        return [inner(grad(u), grad(v)) * dx + r * v * dx + u * s * dx]
+        V = FunctionSpace(m, P1)
+        RS = FunctionSpace(m, R)
+        r = TrialFunction(RS)
+        v = TestFunction(V)
+        lam = Coefficient(RS)
+        return [r * v * dx + lam * r * v * ds]
     return b
 
 
@@ -423,9 +425,76 @@ def _expr_facet():
     return b
 
 
+def _expr_p2geom():
+    def b():
+        m, V = space("triangle", "P", 2, gdeg=2)
+        f = Coefficient(V)
+        x = SpatialCoordinate(m)
+        pts = np.array([[0.2, 0.2], [0.6, 0.3]])
+        return [(grad(f) * x[0] + as_vector([f, det(ufl.Jacobian(m))]), pts)]
+    return b
+
+
+def _expr_facet_tet():
+    def b():
+        m, V = space("tetrahedron", "P", 1)
+        f = Coefficient(V)
+        n = FacetNormal(m)
+        pts = np.array([[0.25, 0.25], [0.6, 0.2]])
+        return [(f * n + grad(f), pts)]
+    return b
+
+
+def _expr_rank1_div():
+    def b():
+        m, V = space("triangle", "P", 2, shape=(2,))
+        u = TrialFunction(V)
+        K = Constant(m, shape=(2, 2))
+        pts = np.array([[0.3, 0.2], [0.1, 0.7], [0.5, 0.5]])
+        return [(div(u) + inner(K, grad(u)), pts)]
+    return b
+
+
+def _expr_rank1_vector():
+    def b():
+        m, V = space("triangle", "P", 1, shape=(2,))
+        u = TrialFunction(V)
+        Q = FunctionSpace(m, basix.ufl.element("P", "triangle", 1))
+        f = Coefficient(Q)
+        pts = np.array([[0.3, 0.2], [0.1, 0.7]])
+        return [(f * grad(u) + ufl.outer(u, u.dx(0)) * 0 + grad(u).T, pts)]
+    return b
+
+
+def _expr_interval():
+    def b():
+        m, V = space("interval", "P", 2)
+        f = Coefficient(V)
+        c = Constant(m)
+        pts = np.array([[0.0], [0.3], [1.0]])
+        return [(c * f.dx(0) + f * f, pts)]
+    return b
+
+
+def _expr_two():
+    def b():
+        m, V = space("triangle", "P", 1)
+        f = Coefficient(V)
+        g = Coefficient(V)
+        pts = np.array([[0.25, 0.25]])
+        return [(f * g, pts), (grad(g), np.array([[0.5, 0.25], [0.1, 0.1]]))]
+    return b
+
+
 def expressions():
     E = Entry
     return [
+        E("expr_p2geom", _expr_p2geom(), kind="expression"),
+        E("expr_facet_tet", _expr_facet_tet(), kind="expression"),
+        E("expr_rank1_div", _expr_rank1_div(), kind="expression"),
+        E("expr_rank1_vector", _expr_rank1_vector(), kind="expression"),
+        E("expr_interval", _expr_interval(), kind="expression"),
+        E("expr_two", _expr_two(), kind="expression"),
         E("expr_grad_tri", _expr_grad("triangle"), kind="expression"),
         E("expr_grad_tet", _expr_grad("tetrahedron"), kind="expression"),
         E("expr_rank1", _expr_rank1(), kind="expression"),
